@@ -175,6 +175,10 @@ def binding_positions(run):
                     ident = n.asname or n.name.partition('.')[0]
                     alias_at.setdefault(ident, []).append((n.end_lineno, n.end_col_offset - len(ident)) if n.asname else (n.lineno, n.col_offset))
             imported_at = {}
+            # where identifiers (and keywords) stand as TOKENS: a comment or a string may hold the same word
+            import io
+            import tokenize
+            name_tokens = {tok.start for tok in tokenize.generate_tokens(io.StringIO(text).readline) if tok.type == tokenize.NAME}
             declared = {}
             bad = []
             count = 0
@@ -191,6 +195,8 @@ def binding_positions(run):
                 got = text_at(lines, pos, len(want))
                 if got != want:
                     bad.append((ident, tuple(pos), 'all_names', got))
+                elif tuple(pos) not in name_tokens:
+                    bad.append((ident, tuple(pos), 'all_names (the word there is part of a comment or a string, not a token)', got))
                 if type(name).__name__ == 'ImportedName':
                     imported_at.setdefault(ident, []).append(tuple(pos))
             for ident in set(alias_at) | set(imported_at):
